@@ -82,11 +82,11 @@ def _strlen(ex, st, args, n):
     return slen(args[0])
 
 
-@R.model('memcmp', "for a constant length <= 16: zero iff the bytes are equal (sign not modelled)")
+@R.model('memcmp', "for a constant length <= 32: zero iff the bytes are equal (sign not modelled)")
 def _memcmp(ex, st, args, n):
     a, b, cnt = args
     k = z3.simplify(cnt)
-    if not z3.is_bv_value(k) or k.as_long() > 16:
+    if not z3.is_bv_value(k) or k.as_long() > 32:
         raise NotSupported("memcmp with non-constant or long length")
     eq = z3.And(*[z3.Select(st.raw, a + BV(i, 64)) == z3.Select(st.raw, b + BV(i, 64)) for i in range(k.as_long())])
     d = ex.fresh('memcmp', z3.BitVecSort(32))
